@@ -44,11 +44,25 @@ def innermost_nsl_frame(tb):
     return last
 
 
+def outermost_pass_file(tb):
+    """The file of the compiler pass the exception came out of (first frame inside nsl/passes/), or None."""
+    root = os.path.realpath(snapshot.root() or "")
+    for fs in traceback.extract_tb(tb):
+        fn = os.path.realpath(fs.filename)
+        if fn.startswith(os.path.join(root, "nsl", "passes") + os.sep):
+            return os.path.relpath(fn, os.path.join(root, "nsl")).replace(os.sep, "/")
+    return None
+
+
 def classify(e):
-    """-> (status, exc class name, function, file) for an exception leaving nsl code."""
+    """-> (status, exc class name, function, file) for an exception leaving nsl code.
+    'internal' = raised after the AST gate: the pass it came out of is a back-end pass, or (no pass on the stack: linker, VM,
+    emitter used directly) the innermost nsl frame is in a back-end file.  A front-end pass that fails inside a helper living in a
+    back-end file (ComputeTypes asking the module loader for an import) is still the front end refusing the program."""
     fr = innermost_nsl_frame(e.__traceback__)
     file, fn = fr if fr else ("?", "?")
-    status = "internal" if file.replace(os.sep, "/") in BACKEND_FILES else "reject"
+    owner = outermost_pass_file(e.__traceback__) or file.replace(os.sep, "/")
+    status = "internal" if owner in BACKEND_FILES else "reject"
     return status, type(e).__name__, fn, file
 
 
